@@ -268,7 +268,14 @@ class Program:
                 if not is_fn or 'promoted[' in name:
                     self.promoted[name] = fn
                 else:
-                    self.fns.setdefault(name, fn)
+                    if name in self.fns:
+                        # several bodies with one printed name (macro-generated impls sharing a span)
+                        k = 2
+                        while f'{name}#{k}' in self.fns:
+                            k += 1
+                        self.fns[f'{name}#{k}'] = fn
+                    else:
+                        self.fns[name] = fn
                     self._index(fn)
             else:
                 mc = re.match(r'^const ([\w:{}#<>]+): (.*?) = (const .*);$', l)
